@@ -4,6 +4,7 @@ import os, subprocess
 DEFAULT_TIMEOUT = {"quick": 1200, "thorough": 3600}
 DEFAULT_MEM_GB = 40
 MAX_JOBS = 10
+MAX_JOBS_THOROUGH = 5  # the largest step harnesses need ~10 GB each
 KNOWN_EXCLUSION_FLAGS = []
 # expected wall seconds of the slow harnesses (scheduling order only)
 WEIGHT = {"c02_step_flow_mapping_key_d2": 600, "c02_step_flow_mapping_first_key_d2": 600, "c02_step_flow_mapping_key_d0": 600, "c02_step_flow_mapping_first_key_d0": 600,
@@ -412,7 +413,7 @@ PROPERTIES["C19"] = {
 }
 
 C01_STEPS_Q = ["c02_step_block_node_d0", "c02_step_block_mapping_value_d0", "c02_step_flow_sequence_entry_mapping_key_d0", "c02_step_indentless_sequence_entry_d0"]
-C01_STEPS_T = [x + "_d0" for x in STATES_D if x + "_d0" not in C01_STEPS_Q]
+C01_STEPS_T = ["c02_step_" + x + "_d0" for x in STATES_D if "c02_step_" + x + "_d0" not in C01_STEPS_Q]
 PROPERTIES["C01"] = {
     "level": "model_checking",
     "level_text": "Bounded model checking of the panic sites and loops named by the property, unit by unit, on the real code: every required StrInput method "
